@@ -195,6 +195,21 @@ func rootKeys() (ed25519.PublicKey, ed25519.PrivateKey) {
 	return priv.Public().(ed25519.PublicKey), priv
 }
 
+var cfgTokenCache *biscuit.Biscuit
+
+// configToken: the token of the party that prepares authorizer snapshots ("load" op). Its
+// strings occur nowhere else.
+func configToken() (*biscuit.Biscuit, error) {
+	if cfgTokenCache != nil {
+		return cfgTokenCache, nil
+	}
+	t, err := buildToken([]Block{{Facts: []Pred{{Name: "config-service", Terms: []Term{S("cfg-own-string-1"), S("cfg-own-string-2")}}}}}, NewRng(4242))
+	if err == nil {
+		cfgTokenCache = t
+	}
+	return t, err
+}
+
 // buildToken builds a token through the public API and passes it through the wire.
 func buildToken(blocks []Block, rng *Rng) (*biscuit.Biscuit, error) {
 	return buildTokenMem(blocks, rng, false)
@@ -455,7 +470,14 @@ func goAuthSeq(a AuthCase) (res string) {
 		case "savekeep":
 			az.SerializePolicies() // result and error discarded: only its effect on az matters
 		case "load":
-			scratch, err := newAuthorizer(toks[0], a)
+			// the snapshot is made elsewhere: by an authorizer created for another token
+			// (a configuration service's own), whose strings are not those of the token
+			// the snapshot is loaded for
+			cfgTok, err := configToken()
+			if err != nil {
+				return "bad-case"
+			}
+			scratch, err := newAuthorizer(cfgTok, a)
 			if err != nil {
 				return "authorizer-error " + err.Error()
 			}
